@@ -325,6 +325,13 @@ def rulesets(ctx, layer):
         room = rng.choice(rooms)
         ev = {"type": rng.choice(["m.room.message", "m.room.member"]), "sender": sender,
               "room_id": room, "event_id": "$e", "content": content}
+        if rng.random() < 0.12:
+            # no usable sender: absent, not a string, not a user ID
+            bad = rng.choice(["absent", 5, None, ["@a:x.org"], "not-a-user-id", "@nocolon", "a:x.org", ""])
+            if bad == "absent":
+                del ev["sender"]
+            else:
+                ev["sender"] = bad
         if rng.random() < 0.2:
             ev["state_key"] = rng.choice(users)
         pl = None
